@@ -244,31 +244,43 @@ def part3(tier, rng):
     an = G.Analysis(G.HELPERS)
     inputs = G.all_inputs('ab', 4)
     for i in range(n):
-        names = ['A', 'B', 'C']
-        bodies = {}
-        ok = True
-        for nme in names:
-            e = G.random_expr(rng, rng.choice([1, 2, 3]))
-            if not an.wellformed(e) or an.has_bt(e):
-                ok = False
-                break
-            bodies[nme] = e
-        if not ok:
-            continue
         # A, B, C in the generated expressions refer to the *helper* rules of gengram; here they are
         # redefined as logging wrappers around H_A.. (the helpers) so every reference logs
         start = G.random_expr(rng, 3)
         if not an.wellformed(start) or an.has_bt(start):
             continue
-        lines = [PRELUDE + f'start = {G.render(start)}']
+        stext = G.render(start)
+        variant = []
+        if rng.random() < 0.4:
+            # rules handed to templates: a rule passed as an argument must hit the memo entry of a direct reference
+            import re as _re
+            wrapped = _re.sub(r'\b([ABC])\b', lambda m: rng.choice([f'Wrap({m.group(1)})', f'Twice({m.group(1)})']), stext)
+            # the expression is read twice from the same position: first with direct references (as an optional
+            # lookahead), then with every rule handed to a template - both must use the same memo entries
+            stext = f'[Opt(Expect({stext})), {wrapped}]'
+            variant.append('templates')
+        with_ign = rng.random() < 0.3
+        if with_ign:
+            # exactly one named ignored rule that logs, also referred to explicitly
+            stext = f'[{stext}, Sp?, /.*/]'
+            variant.append('ignore')
+        lines = [PRELUDE + f'start = {stext}']
+        if rng.random() < 0.4:
+            lines.insert(0, f'grammar c07g{i}x{rng.randrange(10 ** 6)}')
+            variant.append('named')
         for nme, h in G.HELPERS.items():
             lines.append(f"{nme} = `note('{nme}', _pos)` >> {G.render(h)}")
+        if 'templates' in variant:
+            lines.append('Wrap(x) = x')
+            lines.append('Twice(x) = [Expect(x), x]')
+        if with_ign:
+            lines.append("ignored Sp = `note('Sp', _pos)` >> / +/")
         gtext = '\n'.join(lines) + '\n'
         try:
             module, _ = realrun.compile_grammar(gtext)
         except Exception as exc:      # noqa: BLE001
             continue
-        for text in inputs:
+        for text in (inputs + [' a b', 'a b', 'ab ', 'a  b', ' ab', 'a b a'] if with_ign else inputs):
             del module.LOG[:]
             try:
                 with time_limit(5):
